@@ -12,10 +12,20 @@ Classification rules (conservative: when in doubt a field counts as WRITTEN):
   self._x.meth(...)                              -> write _x (the call may mutate the object) and read
   f(.., self._x, ..) with f not a self-method     -> write _x (the callee may mutate the object) and read
   self.m(...) with m a method of the class        -> call m
+  ALIASES (flow-insensitive, per method, to a fixpoint over the class): a local name bound to an expression whose
+  value may be (a view of / a reference to) the object held in self._x  -  self._x, self._x[..], self._x.attr, another
+  alias, a conditional of those, a tuple/list of those, the result of a self-method whose `return` is such an expression,
+  the result of a method call on / a foreign call with such an object (except .copy() .tolist() .item() and the scalar
+  builtins int float len bool round abs str repr min max sum), a parameter that some call site in the class binds to such
+  an expression  -  counts as _x wherever it is used: a load of the name is a read of _x; name[..] = / name.a = /
+  name op= / name.meth() / f(name) are writes of _x.
   `self` in any other position (bare, getattr(self,..), passed on), a method used without being called,
   lambda / nested def / class / generator expression / yield / await / super / locals / globals / eval / exec /
-  vars / setattr / delattr / dunder attributes, `del`, loops, try, other `with` items, decorators, base classes,
-  class-level statements other than `def` and a docstring      -> SOpaque
+  vars / setattr / delattr / dunder attributes, `del`, loops, try, other `with` items (a second lock, a local alias of
+  the lock, `with self._lock, x:`, `with self._lock as l:`), decorators (properties, lock-wrapping decorators), base
+  classes, class-level statements other than `def` and a docstring, definitions of __getattr__ / __getattribute__ /
+  __setattr__ / __delattr__, any mention of the class name elsewhere in the module (monkey-patching, subclasses),
+  a lock that is not created by `threading.RLock()` with `threading` being the imported module      -> SOpaque
 """
 import ast
 import hashlib
@@ -43,12 +53,131 @@ def _root_field(n):
     return n.attr if _is_self_attr(n) else None
 
 
+SCALAR_BUILTINS = {'int', 'float', 'len', 'bool', 'round', 'abs', 'str', 'repr', 'min', 'max', 'sum'}
+COPY_METHODS = {'copy', 'tolist', 'item'}
+
+
+def _strip(n):
+    while isinstance(n, (ast.Subscript, ast.Attribute, ast.Starred)) and not _is_self_attr(n):
+        n = n.value
+    return n
+
+
+def _roots(n, env, ret, methods):
+    """fields whose object the VALUE of expression n may reference / be a view of"""
+    n = _strip(n)
+    if _is_self_attr(n):
+        return set() if n.attr in methods else {n.attr}
+    if isinstance(n, ast.Name):
+        return set(env.get(n.id, ()))
+    if isinstance(n, ast.IfExp):
+        return _roots(n.body, env, ret, methods) | _roots(n.orelse, env, ret, methods)
+    if isinstance(n, ast.BoolOp):
+        return set().union(*[_roots(v, env, ret, methods) for v in n.values])
+    if isinstance(n, (ast.Tuple, ast.List, ast.Set)):
+        return set().union(*[_roots(v, env, ret, methods) for v in n.elts]) if n.elts else set()
+    if isinstance(n, ast.Call):
+        f = n.func
+        if _is_self_attr(f) and f.attr in methods:
+            return set(ret.get(f.attr, ()))
+        if isinstance(f, ast.Name) and f.id in SCALAR_BUILTINS:
+            return set()
+        out = set()
+        if isinstance(f, ast.Attribute):
+            if f.attr in COPY_METHODS:
+                return set()
+            out |= _roots(f.value, env, ret, methods)
+        for a in list(n.args) + [k.value for k in n.keywords]:
+            out |= _roots(a, env, ret, methods)
+        return out
+    return set()
+
+
+def _weak(fields):
+    """alias obtained through a parameter: '~_x'.  Explicit stores through it are writes of _x, loads are reads, but
+    merely handing it to a foreign call / calling a method on it is not counted as a write (it is for a local alias)."""
+    return {'~' + f.lstrip('~') for f in fields}
+
+
+def _alias_analysis(defs, methods):
+    """-> (env[m][name] = fields, ret[m] = fields) to a fixpoint"""
+    env = {d.name: {} for d in defs}
+    ret = {d.name: set() for d in defs}
+    params = {}
+    for d in defs:
+        a = d.args
+        params[d.name] = ([x.arg for x in a.posonlyargs + a.args][1:], [x.arg for x in a.kwonlyargs],
+                          a.vararg.arg if a.vararg else None, a.kwarg.arg if a.kwarg else None)
+
+    def add(m, name, fields):
+        if not fields:
+            return False
+        cur = env[m].setdefault(name, set())
+        if fields <= cur:
+            return False
+        cur |= fields
+        return True
+
+    changed = True
+    while changed:
+        changed = False
+        for d in defs:
+            m = d.name
+            for n in ast.walk(d):
+                if isinstance(n, (ast.Assign, ast.AnnAssign)) and n.value is not None:
+                    targets = n.targets if isinstance(n, ast.Assign) else [n.target]
+                    for t in targets:
+                        if isinstance(t, ast.Name):
+                            changed |= add(m, t.id, _roots(n.value, env[m], ret, methods))
+                        elif isinstance(t, (ast.Tuple, ast.List)):
+                            names = [e for e in ast.walk(t) if isinstance(e, ast.Name)]
+                            if isinstance(n.value, (ast.Tuple, ast.List)) and len(n.value.elts) == len(t.elts) \
+                                    and all(isinstance(e, ast.Name) for e in t.elts):
+                                for e, v in zip(t.elts, n.value.elts):
+                                    changed |= add(m, e.id, _roots(v, env[m], ret, methods))
+                            else:
+                                r = _roots(n.value, env[m], ret, methods)
+                                for e in names:
+                                    changed |= add(m, e.id, r)
+                elif isinstance(n, ast.Return) and n.value is not None:
+                    r = _roots(n.value, env[m], ret, methods)
+                    if not r <= ret[m]:
+                        ret[m] |= r
+                        changed = True
+                elif isinstance(n, ast.Call) and _is_self_attr(n.func) and n.func.attr in methods:
+                    callee = n.func.attr
+                    pos, kwo, va, kw = params[callee]
+                    for i, a in enumerate(n.args):
+                        r = _weak(_roots(a, env[m], ret, methods))
+                        if isinstance(a, ast.Starred) or i >= len(pos):
+                            for p in pos + ([va] if va else []):
+                                changed |= add(callee, p, r)
+                        else:
+                            changed |= add(callee, pos[i], r)
+                    for k in n.keywords:
+                        r = _weak(_roots(k.value, env[m], ret, methods))
+                        if k.arg is None or k.arg not in pos + kwo:
+                            for p in pos + kwo + ([kw] if kw else []):
+                                changed |= add(callee, p, r)
+                        else:
+                            changed |= add(callee, k.arg, r)
+    return env, ret
+
+
 class _Expr:
     """Field/call classification of the expressions evaluated by ONE statement."""
 
-    def __init__(self, methods):
+    def __init__(self, methods, env=None):
         self.methods = methods
+        self.env = env or {}
         self.reads, self.writes, self.calls = [], [], []   # calls: (lineno, col, name)
+
+    def alias_fields(self, n):
+        """fields aliased by the local name at the root of a Subscript/Attribute chain (not the bare name)"""
+        r = _strip(n)
+        if isinstance(r, ast.Name) and r.id in self.env:
+            return self.env[r.id]
+        return ()
 
     def add(self, lst, x):
         if x not in lst:
@@ -65,6 +194,9 @@ class _Expr:
             if t.id == 'self':
                 raise Opaque('self is rebound')
             return
+        for g in self.alias_fields(t):                   # alias[..] = .. / alias.attr = ..
+            self.add(self.writes, g.lstrip('~'))
+            self.add(self.reads, g.lstrip('~'))
         f = _root_field(t)
         if f is not None:
             if f in self.methods:
@@ -81,6 +213,9 @@ class _Expr:
                 raise Opaque('bare self')
             if n.id in FORBIDDEN_NAMES:
                 raise Opaque(f'use of {n.id}')
+            if isinstance(n.ctx, ast.Load):
+                for g in self.env.get(n.id, ()):
+                    self.add(self.reads, g.lstrip('~'))
             return
         if _is_self_attr(n):
             x = n.attr
@@ -100,14 +235,24 @@ class _Expr:
             return
         if isinstance(n, ast.Call):
             selfcall = _is_self_attr(n.func) and n.func.attr in self.methods
-            if not selfcall:
-                f = _root_field(n.func) if isinstance(n.func, ast.Attribute) else None
-                if f is not None and not _is_self_attr(n.func):
-                    self.add(self.writes, f)           # self._x.meth(...) may mutate _x
+            scalar = isinstance(n.func, ast.Name) and n.func.id in SCALAR_BUILTINS
+            if not selfcall and not scalar:
+                if isinstance(n.func, ast.Attribute) and n.func.attr not in COPY_METHODS:
+                    f = _root_field(n.func)
+                    if f is not None and not _is_self_attr(n.func):
+                        self.add(self.writes, f)       # self._x.meth(...) may mutate _x
+                    for g in self.alias_fields(n.func):
+                        if not g.startswith('~'):
+                            self.add(self.writes, g)   # alias.meth(...) may mutate _x
                 for a in list(n.args) + [k.value for k in n.keywords]:
                     g = _root_field(a)
                     if g is not None and g not in self.methods:
                         self.add(self.writes, g)       # f(self._x) may mutate _x
+                    r = _strip(a)
+                    if isinstance(r, ast.Name):
+                        for g in self.env.get(r.id, ()):
+                            if not g.startswith('~'):
+                                self.add(self.writes, g)   # f(alias) may mutate _x
             self.visit(n.func, parent_call=n)
             for a in n.args:
                 self.visit(a)
@@ -118,11 +263,11 @@ class _Expr:
             self.visit(c)
 
 
-def _stmt(s, methods):
+def _stmt(s, methods, env=None):
     """-> nested tuple form of one statement."""
     ln = s.lineno
     try:
-        e = _Expr(methods)
+        e = _Expr(methods, env)
         if isinstance(s, ast.Expr):
             if isinstance(s.value, ast.Constant):
                 return None                              # docstring / bare constant: no effect
@@ -138,6 +283,10 @@ def _stmt(s, methods):
             f = _root_field(s.target)
             if f is not None:
                 e.add(e.reads, f)
+            if isinstance(s.target, ast.Name):          # alias op= ..  is in place for arrays
+                for g in e.env.get(s.target.id, ()):
+                    e.add(e.writes, g.lstrip('~'))
+                    e.add(e.reads, g.lstrip('~'))
             e.visit(s.value)
             kind = 'KPlain'
         elif isinstance(s, ast.AnnAssign):
@@ -164,14 +313,14 @@ def _stmt(s, methods):
         elif isinstance(s, ast.If):
             e.visit(s.test)
             calls = [c[2] for c in sorted(e.calls)]
-            return ('if', ln, e.reads, e.writes, calls, _block(s.body, methods), _block(s.orelse, methods))
+            return ('if', ln, e.reads, e.writes, calls, _block(s.body, methods, env), _block(s.orelse, methods, env))
         elif isinstance(s, ast.With):
             if len(s.items) != 1 or s.items[0].optional_vars is not None:
                 raise Opaque('with: not exactly `with self._lock:`')
             ce = s.items[0].context_expr
             if not (_is_self_attr(ce) and ce.attr == '_lock'):
                 raise Opaque('with: context is not self._lock')
-            return ('with', ln, _block(s.body, methods))
+            return ('with', ln, _block(s.body, methods, env))
         else:
             raise Opaque('statement ' + type(s).__name__)
         calls = [c[2] for c in sorted(e.calls)]
@@ -180,16 +329,50 @@ def _stmt(s, methods):
         return ('opaque', ln, str(ex))
 
 
-def _block(stmts, methods):
+def _block(stmts, methods, env=None):
     out = []
     for s in stmts:
-        r = _stmt(s, methods)
+        r = _stmt(s, methods, env)
         if r is not None:
             out.append(r)
     return out
 
 
-def parse(repo):
+HOOK_DEFS = {'__getattr__', '__getattribute__', '__setattr__', '__delattr__', '__set_name__', '__init_subclass__',
+             '__new__', '__del__', '__reduce__', '__reduce_ex__', '__getstate__', '__setstate__', '__copy__',
+             '__deepcopy__'}
+
+
+def _module_problems(tree, cls):
+    """things outside the class body that can change what the class does"""
+    out = []
+    inside = {id(n) for n in ast.walk(cls)}
+    for n in ast.walk(tree):
+        if id(n) in inside:
+            continue
+        if isinstance(n, ast.Name) and n.id == CLASS:
+            out.append(('opaque', n.lineno, f'{CLASS} is mentioned outside its class body'))
+        if isinstance(n, ast.Attribute) and n.attr == CLASS:
+            out.append(('opaque', n.lineno, f'{CLASS} is mentioned outside its class body'))
+        if isinstance(n, ast.Constant) and n.value == CLASS:
+            out.append(('opaque', n.lineno, f'{CLASS} is named in a string outside its class body'))
+    top = [n for n in tree.body if isinstance(n, (ast.Import, ast.ImportFrom))]
+    ok = any(isinstance(n, ast.Import) and any(a.name == 'threading' and a.asname in (None, 'threading') for a in n.names)
+             for n in top)
+    rebinds = [n for n in ast.walk(tree) if isinstance(n, ast.Name) and n.id == 'threading' and isinstance(n.ctx, ast.Store)]
+    rebinds += [n for n in ast.walk(tree) if isinstance(n, (ast.Import, ast.ImportFrom)) and n not in top]
+    rebinds += [n for n in top if any((a.asname or a.name.split('.')[0]) == 'threading' for a in n.names)
+                and not (isinstance(n, ast.Import) and all(a.name == 'threading' or (a.asname or a.name) != 'threading'
+                                                           for a in n.names))]
+    if not ok or rebinds:
+        out.append(('opaque', 0, '`threading` is not (only) the top-level `import threading`'))
+    return out
+
+
+LAST = {}
+
+
+def parse(repo, use_alias=True):
     """-> (table, sha256).  table: list of (method name, block)."""
     path = os.path.join(repo, RELPATH)
     src = open(path).read()
@@ -214,6 +397,12 @@ def parse(repo):
     methods = [d.name for d in defs]
     if len(set(methods)) != len(methods):
         problems.append(('opaque', cls.lineno, 'method defined twice'))
+    for d in defs:
+        if d.name in HOOK_DEFS:
+            problems.append(('opaque', d.lineno, f'class defines {d.name}'))
+    problems += _module_problems(tree, cls)
+    env, _ret = _alias_analysis(defs, methods) if use_alias else ({}, {})
+    LAST['returns_alias'] = {m: sorted({f.lstrip('~') for f in fs}) for m, fs in _ret.items() if fs}
     # the lock must be created in __init__ by threading.RLock() and never be touched otherwise
     for d in defs:
         a = d.args
@@ -233,7 +422,7 @@ def parse(repo):
                 e.visit(dflt)
         except Opaque as ex:
             body.append(('opaque', d.lineno, 'default: ' + str(ex)))
-        table.append((d.name, body + _block(d.body, methods)))
+        table.append((d.name, body + _block(d.body, methods, env.get(d.name))))
     if not _lock_is_rlock(defs):
         problems.append(('opaque', cls.lineno, '__init__ does not set self._lock = threading.RLock()'))
     if problems:
@@ -248,7 +437,7 @@ def _lock_is_rlock(defs):
         for s in ast.walk(d):
             if isinstance(s, ast.Assign) and len(s.targets) == 1 and _is_self_attr(s.targets[0]) \
                     and s.targets[0].attr == '_lock' and isinstance(s.value, ast.Call) \
-                    and ast.unparse(s.value.func) in ('threading.RLock', 'RLock') and not s.value.args:
+                    and ast.unparse(s.value.func) == 'threading.RLock' and not s.value.args and not s.value.keywords:
                 return True
     return False
 
@@ -325,6 +514,7 @@ def flat(block):
 
 def translate(repo, outdir):
     table, sha = parse(repo)
+    returns_alias = dict(LAST.get('returns_alias', {}))
     text = emit(table, sha)
     os.makedirs(outdir, exist_ok=True)
     path = os.path.join(outdir, 'BufferLockGen.v')
@@ -332,12 +522,16 @@ def translate(repo, outdir):
     with open(path, 'w') as f:
         f.write(text)
     mutable, opaque = set(), []
+    plain = dict(parse(repo, use_alias=False)[0])
+    alias_extra = {}
     for name, block in table:
         r, w, c, o = flat(block)
         if name != '__init__':
             mutable |= w
         opaque += [f'{name}: {x}' for x in o]
-    return {'table': table, 'sha256': sha, 'path': path, 'mutable_fields': sorted(mutable), 'opaque': opaque,
+        r0, w0, _, _ = flat(plain.get(name, []))
+        alias_extra[name] = sorted((r | w) - (r0 | w0))
+    return {'table': table, 'alias_extra': alias_extra, 'returns_alias': returns_alias, 'sha256': sha, 'path': path, 'mutable_fields': sorted(mutable), 'opaque': opaque,
             'methods': [n for n, _ in table]}
 
 
